@@ -1,0 +1,30 @@
+//go:build verif
+
+package metrics
+
+// Read-only accessors used by the /verif correspondence harness. Not built without -tags verif.
+
+// VerifDefaultBuckets returns the bucket bounds NewHistogram uses.
+func VerifDefaultBuckets() []float64 {
+	h := NewHistogram("verif", nil)
+	out := make([]float64, len(h.buckets))
+	copy(out, h.buckets)
+	return out
+}
+
+// VerifCounts returns a copy of the per-bucket counts (last element: overflow bucket).
+func (h *Histogram) VerifCounts() []int64 {
+	h.mu.RLock()
+	defer h.mu.RUnlock()
+	out := make([]int64, len(h.counts))
+	copy(out, h.counts)
+	return out
+}
+
+// VerifCollector exposes the monitor's collector.
+func (pm *PerformanceMonitor) VerifCollector() *Collector { return pm.collector }
+
+// VerifMetricKey exposes the series key of (name, tags).
+func (mc *Collector) VerifMetricKey(name string, tags map[string]string) string {
+	return mc.metricKey(name, tags)
+}
